@@ -135,6 +135,9 @@ class Client(base_client.BaseClient):
                 base_client.connected_clients.remove(self)
             except ValueError:  # pragma: no cover
                 pass
+        elif self.state == 'disconnecting':
+            # another disconnect() is in progress and will finish the job
+            return
         self._reset()
 
     def start_background_task(self, target, *args, **kwargs):
